@@ -559,6 +559,13 @@ class Reader:
         self._res[name] = r
         return r
 
+    def resolve_spelling(self, s: str) -> Resolved:
+        """Resolved record for any readable spelling (canonical name, alias, symbol, prefix+unit)."""
+        if s in self.units:
+            return self.resolve(s)
+        f, root, dim, tainted, nops = self.resolve_compound({s: 1})
+        return Resolved(s, f, root, dim, tainted, nops, 1)
+
     def resolve_compound(self, units: dict):
         """units: {spelling: exponent}.  Returns (factor, root vector, dim vector, tainted, nops)."""
         acc = V()
